@@ -61,7 +61,9 @@ func filter(only bool, opt *Option, profile string) (string, error) {
 	if opt.IsInline() {
 		profile = strings.ReplaceAll(profile, opt.Raw, "")
 	} else {
-		regRemoveParagraph := regexp.MustCompile(`(?s)` + opt.Raw + `\n.*?\n\n`)
+		// The directive line is matched literally and from the start of a line only: it
+		// must not match the end of an inline rule carrying the same directive.
+		regRemoveParagraph := regexp.MustCompile(`(?sm)^` + regexp.QuoteMeta(opt.Raw) + `\n.*?\n\n`)
 		profile = regRemoveParagraph.ReplaceAllString(profile, "")
 	}
 	return profile, nil
